@@ -930,6 +930,11 @@ class Replica(object):
                                        lambda node: ns.parse.function(ast.parse(ns.st.to_code(node)).body[0])),
             "argparse_docs": (lambda ww: ns.emit.argparse_function(mk_ir(), word_wrap=ww, emit_default_doc=True),
                               lambda node: ns.parse.argparse_ast(ast.parse(ns.st.to_code(node)).body[0])),
+            # the parsers have a word_wrap parameter of their own: with it off, too, layout must not reach the description
+            "class_docs_parse_nowrap": (lambda ww: ns.emit.class_(mk_ir(), word_wrap=ww, emit_default_doc=True),
+                                        lambda node: ns.parse.class_(ast.parse(ns.st.to_code(node)).body[0], word_wrap=False)),
+            "function_docs_parse_nowrap": (lambda ww: ns.emit.function(mk_ir(), function_name="f", function_type="static", word_wrap=ww, emit_default_doc=True),
+                                           lambda node: ns.parse.function(ast.parse(ns.st.to_code(node)).body[0], word_wrap=False)),
         }
         summary = {}
         ll = self.task.get("line_length")
